@@ -669,6 +669,10 @@ class PoolRun(object):
         h = self.h
         try:
             for op in self.prog["controller"]:
+                if self.abandon.is_set():
+                    # the run was given up (frozen state): a controller that gets unstuck later must not go on creating
+                    # threads that the next history would see
+                    return
                 k = op[0]
                 if k == "start":
                     c = h.ev("start_call")
@@ -817,6 +821,8 @@ class PoolRun(object):
     def enqueuer(self, i):
         self.go[i].wait()
         for op in self.prog["enqueuers"][i]:
+            if self.abandon.is_set():
+                return
             if op[0] == "sleep":
                 time.sleep(op[1] / 1000.0)
             else:
